@@ -96,7 +96,7 @@ func runNegoCase(tw *traceWriter, c negoCase, registered []string, reps int) {
 				continue
 			}
 			sts[rec.Code] = true
-			ct := rec.Header().Get("Content-Type")
+			ct := wireHeader(rec).Get("Content-Type")
 			if rec.Code != 406 {
 				cts[ct] = true
 				var back negoEntity
